@@ -76,6 +76,8 @@ type Case struct {
 	Spread    uint8      `json:"spread"`
 	Stops     []StopSpec `json:"stops"`
 	PriorCSel uint8      `json:"prior_csel"`
+	// FillAdj: the path that shows the gradient names its register as CSEL minus this adjustment.
+	FillAdj uint8 `json:"fill_adj,omitempty"`
 	PriorNSel uint8      `json:"prior_nsel"`
 	// ViaIncr > 0: the prior selectors are reached by that many incrementing
 	// writes (wrapping past 63) instead of a plain selector write.
@@ -352,7 +354,12 @@ func oneJob(c Case, gp *generate.Generator, hook *ops.Recorder, enc *encode.Enco
 	if !validForRendering(c) || c.Dest == "recorder" {
 		return nil
 	}
-	g.StartPath(0, vb[0], vb[1])
+	// the path is filled from the register the helper wrote (CREG[CSEL]), addressed directly or as
+	// selector minus adjustment
+	if c.FillAdj > 0 {
+		g.SetCSel((g.CSel() + c.FillAdj) & 63)
+	}
+	g.StartPath(c.FillAdj, vb[0], vb[1])
 	g.AbsLineTo(vb[2], vb[1])
 	g.AbsLineTo(vb[2], vb[3])
 	g.ClosePathEndPath()
@@ -402,7 +409,7 @@ func oneJob(c Case, gp *generate.Generator, hook *ops.Recorder, enc *encode.Enco
 	if zr, ok := hook.Inner.(*render.Renderer); ok && c.Retarget != nil {
 		r2 := image.Rect(c.Retarget[0], c.Retarget[1], c.Retarget[0]+c.Retarget[2], c.Retarget[1]+c.Retarget[3])
 		zr.SetRasterizer(rr, r2)
-		g.StartPath(0, vb[0], vb[1])
+		g.StartPath(c.FillAdj, vb[0], vb[1])
 		g.AbsLineTo(vb[2], vb[1])
 		g.AbsLineTo(vb[2], vb[3])
 		g.ClosePathEndPath()
@@ -699,6 +706,10 @@ func genCase(t *rapid.T) (Case, []string) {
 	if c.Dest == "renderer" && rapid.IntRange(0, 2).Draw(t, "retarget") == 0 {
 		c.Retarget = &[4]int{rapid.IntRange(0, 9).Draw(t, "rtx"), rapid.IntRange(0, 9).Draw(t, "rty"), w << uint(rapid.IntRange(0, 4).Draw(t, "rtkx")), h << uint(rapid.IntRange(0, 4).Draw(t, "rtky"))}
 		labels = append(labels, "renderer-re-targeted-between-two-fills-of-the-same-gradient")
+	}
+	if rapid.Bool().Draw(t, "filladj") {
+		c.FillAdj = uint8(rapid.IntRange(1, 6).Draw(t, "filladj.n"))
+		labels = append(labels, "path-filled-from-CREG[CSEL-adj],adj>0")
 	}
 	if rapid.IntRange(0, 3).Draw(t, "pathtransform") == 0 {
 		c.PathTransform = true
